@@ -15,6 +15,7 @@ EXPLANATION = (
     "poll of this call - no error is fabricated, stored for later or replaced; since every Err edge returns, reaching the "
     "completion test implies no child has failed; (DISCARD) the Err path neither takes nor returns any output slot (values "
     "already produced stay for the destructor: C02.DROP).")
+EXPLANATION += (' (CTOR) the entry point stores operand K, converted by into_future only, as the child of position K.')
 ASSUMPTIONS = [
     "each child completes at most once (C03.GUARD/MARK)",
     "destructor behaviour for Ready slots and pending children is decided by C02.DROP",
@@ -93,8 +94,9 @@ def rule_err(ctx, M, u):
             header, exits = common.loop_exits(bi, c.block)
             # every path from the Err edge builds that return value before leaving the iteration,
             # and then returns (no path back to the scan loop)
-            r1 = bi.reach_from_edges(ee, avoid_blocks=goal, stop_blocks=exits, avoid_edges=avoid)
-            if any(x in r1 for x in exits):
+            stops = list(bi.return_blocks) + ([header] if header is not None else [])
+            r1 = bi.reach_from_edges(ee, avoid_blocks=goal, stop_blocks=stops, avoid_edges=avoid)
+            if any(x in r1 for x in stops):
                 probs.append("a path from its Err edge does not return Ready(Err(that error)) in the same call")
             r2 = bi.reach_from_edges(ee, avoid_edges=avoid)
             if header is not None and header in r2:
